@@ -58,6 +58,7 @@ type c08Obs struct {
 	follow   error
 	leak     []string
 	readsAft int
+	orphan   int // h3: connection-level goroutines of a QUIC connection the round tripper forgot
 	hung     bool
 	early    bool // timeout flavour: the timeout hit before the stall point was reached
 }
@@ -244,6 +245,17 @@ func c08Exec(sc c08Scenario, kind string, trigger int, timeoutFlavour bool, clie
 		close(holdDone)
 	}
 
+	// the instant right after the dial goroutine handed its connection to the waiting request
+	// (wantConn.tryDeliver): a cancellation here races the pick-up — either the request takes the
+	// connection (and tears it down) or wantConn.cancel finds it delivered and returns it to the pool
+	if sc.proto != "h3" && !sc.waitConn {
+		testHookPostPendingDial = func() {
+			if r := d.run.Load(); r != nil {
+				r.hit("", "delivered", true)
+			}
+		}
+		defer func() { testHookPostPendingDial = nop }()
+	}
 	d.run.Store(run)
 	if h1 != nil {
 		h1.run.Store(run)
@@ -467,8 +479,38 @@ func c08Exec(sc c08Scenario, kind string, trigger int, timeoutFlavour bool, clie
 		}
 		c.GetTransport().t3.Close()
 	}
+	// (the peer stays up meanwhile: hanging up would also end the loops of a connection that was
+	// neither closed nor returned to the pool)
 	c.GetTransport().CloseIdleConnections()
-	peer.close()
+	if h3 != nil {
+		// After a deadline (or any non-context error) the HTTP/3 round tripper forgets the QUIC
+		// connection without closing it; its connection-level goroutines live on until the QUIC
+		// idle timeout. Bounded, and not work for the request: counted, not judged.
+		deadline := time.Now().Add(c08Bound)
+		for {
+			per, orphan := 0, 0
+			var stacks []string
+			for _, g := range c08Census() {
+				if c08H3ConnLevel(g) {
+					orphan++
+				} else {
+					per++
+					stacks = append(stacks, g)
+				}
+			}
+			if per <= base || time.Now().After(deadline) {
+				if per > base {
+					o.leak = append(o.leak, stacks...)
+				}
+				o.orphan = orphan
+				break
+			}
+			time.Sleep(5 * time.Millisecond)
+		}
+		peer.close() // ends the orphaned connection
+		c08Settle(base, c08Bound)
+		return
+	}
 	if l := c08Settle(base, c08Bound+time.Second); len(l) > 0 {
 		o.leak = append(o.leak, l...)
 	}
@@ -612,7 +654,7 @@ func c08ScriptLane(t *testing.T, proto string, lane string) {
 	c08Mu.Lock()
 	defer c08Mu.Unlock()
 	s := verifh.New(t, "C08", lane,
-		"scenarios {fresh conn, reused conn, streaming upload (fresh/reused), multi-chunk download, retry with interval (GET/upload), waiting for a connection} on "+proto+" against a scripted peer + instrumented dialer; the context is cancelled (context.WithCancel) or its deadline passes (event-driven deadline context) synchronously after the k-th observable event (dial start/finish, TLS handshake done, request head received, i-th upload chunk received, response headers returned, j-th body chunk read, retry wait entered) for every k (quick tier: first, last and one seeded pick per kind of event), plus Client.SetTimeout expiring while the exchange is stalled at a point, plus a cancellation in the middle of a long retry wait; observed: error class, time from injection to return (bound 2 s), Close on every request body, attempts started after the injection, follow-up request on the same client (and whether it had to dial), RST seen by the h2 origin, library goroutines left after CloseIdleConnections; compared with the lifecycle model's set of allowed outcomes for that (scenario, point) and judged by an independent oracle; non-trivial = injection fired")
+		"scenarios {fresh conn, reused conn, streaming upload (fresh/reused), multi-chunk download, retry with interval (GET/upload), waiting for a connection} on "+proto+" against a scripted peer + instrumented dialer; the context is cancelled (context.WithCancel) or its deadline passes (event-driven deadline context) synchronously after the k-th observable event (before the attempt, dial start/finish, TLS handshake done, connection delivered to the waiting request, request head received, i-th upload chunk received, response headers returned, j-th body chunk read, retry wait entered) for every k (quick tier: first, last and one seeded pick per kind of event), plus Client.SetTimeout expiring while the exchange is stalled at a point, plus a cancellation in the middle of a long retry wait; observed: error class, time from injection to return (bound 2 s), Close on every request body, attempts started after the injection, follow-up request on the same client (and whether it had to dial), RST seen by the h2 origin, library goroutines left after CloseIdleConnections; compared with the lifecycle model's set of allowed outcomes for that (scenario, point) and judged by an independent oracle; non-trivial = injection fired")
 	s.OracleIndependent = false
 	rnd := s.Rand()
 	cnt := map[string]int{}
@@ -635,6 +677,9 @@ func c08ScriptLane(t *testing.T, proto string, lane string) {
 		count("body=" + o.body)
 		if o.rst == "1" {
 			count("rst-seen")
+		}
+		if o.orphan > 0 {
+			count("h3-forgotten-conn-left-to-idle-timeout")
 		}
 		what := o.kind
 		if o.timeout {
@@ -755,10 +800,10 @@ func c08ScriptLane(t *testing.T, proto string, lane string) {
 			kinds = append(kinds, "deadline")
 		}
 		for _, kind := range kinds {
-			// injectable events: start, dialStart, dialDone, [hsDone,] wroteHdr, sleepStart, …
-			idx := 4
+			// injectable events: start, dialStart, dialDone, [hsDone,] delivered, wroteHdr, sleepStart, …
+			idx := 5
 			if proto == "h2" {
-				idx = 5
+				idx = 6
 			}
 			o := c08Exec(sc, kind, idx, false, 0)
 			if o.firedNm != "sleepStart" || o.early {
@@ -774,9 +819,9 @@ func c08ScriptLane(t *testing.T, proto string, lane string) {
 	must = append(must, "client-timeout")
 	switch proto {
 	case "h1":
-		must = append(must, "conn=new", "point=getConn", "midsleep")
+		must = append(must, "conn=new", "point=getConn", "midsleep", "point=delivered")
 	case "h2":
-		must = append(must, "point=hsDone", "rst-seen")
+		must = append(must, "point=hsDone", "rst-seen", "point=delivered")
 	case "h3":
 		must = append(must, "rst-seen")
 	}
